@@ -877,6 +877,19 @@ def extract_fn(unit: str, file: str, item: str, mode: str, contracts, canary: bo
                 edits.append((ins_at, ins_at, ('SEGS', spec_segs + [Seg('                { ' + prf, rw('A4'))]), rw('A4')))
                 e_end = toks[cl.body_end_tok].end
                 edits.append((e_end, e_end, ' }', rw('A4')))
+            if cs.bind:
+                # rule R30: an inline closure argument is bound to a local first, so that the proof can name it:
+                # `C`  ->  `{ let NAME = C; proof { .. } NAME }`  (creating a closure has no effect; evaluation order is unchanged)
+                c_lo = toks[cl.bar_tok - 1].start if cl.has_move else toks[cl.bar_tok].start
+                c_hi = toks[cl.body_end_tok].end
+                edits.append((c_lo, c_lo, '{ let %s = ' % cs.bind, rw('R30')))
+                org_a = {'kind': 'insert', 'fn': fn_label, 'vc': '%s:%d' % (c.vc_file, cs.vc_line), 'tags': c.serves, 'rule': 'R30'}
+                n_as = len(re.findall(r'\bassert\s*\(', cs.after)) + len(re.findall(r'\bassert\s+forall\b', cs.after))
+                if n_as:
+                    info.n_asserts += n_as
+                    info.proof_blocks.append(('%s:%d' % (c.vc_file, cs.vc_line), n_as))
+                edits.append((c_hi, c_hi, '; proof { %s } %s }' % (cs.after, cs.bind), org_a))
+                info.rewrites.append('R30:closure%d bound to %s' % (k, cs.bind))
             info.rewrites.append('A4:closure%d' % k)
 
     body_text_lo = body_open.end
